@@ -29,6 +29,11 @@ DECL_SNIPPETS = [
     "int nested() { return forall (i : int[0,1]) exists (j : int[0,1]) (sum (k : int[0,1]) k) > i + j; }",
     "clock cx; void resetc() { cx = 0; } double dd2 = fabs(-1.5) + pow(2.0, 3) + random(3);",
     "typedef int[0,3] id_t; chan cc2[id_t]; int[0,1] mat[id_t][2]; void arrf(int &a[2], const int b[id_t]) { a[0] = b[1]; }",
+    # field types that are not allowed in structures, alone and next to valid fields, nested, as typedef and as variable
+    "struct { chan c; } s1;", "typedef struct { int a; void v; } T1; T1 t1;", "struct { int a; struct { chan c; int b; } in; int z; } s2;",
+    "typedef struct { const string s; int k; } T2;", "struct { clock x; chan c; int n; } s3; struct { int n; } s4;",
+    "typedef struct { int a; } In; struct { In i; void v; In j[2]; } s5;", "void f() { struct { chan c; } l; }",
+    "meta struct { int a; clock x; } ms;", "struct { int a[2]; broadcast chan b[2]; } s6 = { { 1, 2 } };", "struct { } e0;", "typedef struct { scalar[2] s; int i; } T3; T3 t3;",
 ]
 OLD_DECL = ["int a; const N 3; chan c; clock x;", "int a[3]; int b := 2; urgent chan u;"]
 PARAMS = ["int a", "const int a, int &b", "clock &x, chan &c, bool b", "int[0,3] k, broadcast chan &bc", "", "int a[2], const int[0,N] q",
